@@ -392,7 +392,10 @@ func mergeValue(c *Term, a, b Value) (Value, bool) {
 		return Ite(c, x, y), true
 	case FloatVal:
 		y, ok := b.(FloatVal)
-		return x, ok && x.F == y.F
+		if ok && x.I != nil && y.I != nil {
+			return FloatVal{I: Ite(c, x.I, y.I)}, true
+		}
+		return x, ok && x.I == nil && y.I == nil && x.F == y.F
 	case StringVal:
 		y, ok := b.(StringVal)
 		if !ok {
